@@ -156,6 +156,18 @@ class SLEWorld:
         self.tot = sum(_rows(self.s).values())
         self.q = np.where(self.tot > 0, self.tot / QUANTA, 1e-8)
 
+    def change_amount(self, rng):
+        """more (or less) of the solute between calls: solid added or withdrawn, or the whole stream rescaled"""
+        j = self.solute
+        f = rng.choice([0.3, 2., 5.])
+        if rng.random() < 0.5:
+            self.s.imol['s', j] = self.s.imol['s', j] * f + (0.5 if f > 1 else 0.)
+        else:
+            for ph in self.s.phases:
+                self.s.imol[ph] = self.s.imol[ph].to_array() * f
+        self.tot = sum(_rows(self.s).values())
+        self.q = np.where(self.tot > 0, self.tot / QUANTA, 1e-8)
+
     def switch_solute(self):
         """the next calls name the other solute held by the stream (same stream, same solver object)"""
         if self.other is None:
